@@ -75,6 +75,13 @@ reg('C17', 'harness.keys', design_ref='6/C17',
     outside='that archived results are then found by a later OS process (C04, excluded there); process state other than set iteration order and keyword order',
     stubs=KEY_STUBS + ['name `set` in klepto._inspect / klepto.keymaps -> set subclass with symbolic iteration order (set displays would bypass it; none occur in the anchored code)'],
     assumptions=KEY_ASSUME, expect_labels=['C17:stable'])
+reg('C12', 'harness.rounding', design_ref='6/C12',
+    bounds={'quick': '16 argument structures (scalar, list, tuple, set, frozenset, dict with str / non-str keys, two levels of nesting, range, bytes, str, None, namedtuple, empty list) x {simple, deep} x {inf_cache std+safe, lru_cache, klepto.keygen} + standalone simple/shallow/deep_round; every leaf has a symbolic dynamic type in {float,int,str} and a symbolic value; tol is a symbolic unbounded Int or None',
+            'thorough': 'same structures through all 12 cache decorators + keygen; standalone decorators also with tol=None'},
+    outside="numeric behaviour of Python's round (abstracted as uninterpreted R on both sides); nesting deeper than 2; structures outside the family (generators, numpy arrays)",
+    stubs=['round(leaf, tol) -> uninterpreted R(leaf, tol) via Leaf.__round__', 'klepto.crypto str/repr stubs for the stringmap configuration'],
+    assumptions=['leaf values are opaque atoms; only their dynamic type (float/int/str) and equalities matter to the code', 'frozenset is treated like set; namedtuple like tuple (must be rebuilt with its own type)'],
+    expect_labels=['C12:key', 'C12:originals', 'C12:tol-none', 'C12:standalone'])
 
 _T = 'bounded symbolic execution of the real code (ksym proxies on CPython), branch and obligation queries decided by z3, closed path tree, concrete replay of counterexamples'
 _N = 'trusted: CPython, z3 5.1, the ksym proxies (constant hash + solver-decided equality) and the listed stubs; atoms stand for arbitrary hashable non-fast-type objects; bounds as in evidence.coverage.bounds; no claim outside them'
@@ -89,9 +96,10 @@ TEXT = {
     'C10': {'level': 'for every shape/information-preserving keymap in the bound, z3 shows: keys equal => bindings equal', 'note': _N, 'technique': _T},
     'C11': {'level': 'for every shape/ignore specification in the bound, z3 shows keys equal <=> bindings equal outside the ignored arguments', 'note': _N, 'technique': _T},
     'C17': {'level': 'for every shape/ignore specification/keymap in the bound, the key is invariant under every iteration order of the sets built while computing it (symbolic permutations, z3-closed)', 'note': _N, 'technique': _T},
+    'C12': {'level': 'for every structure in the family, every dynamic type of every leaf and every tol, the key computed by the real code equals the key of the oracle-rounded arguments (z3 validity over uninterpreted R), the function receives the original objects, tol=None rounds nothing and no structure makes the call fail', 'note': _N, 'technique': _T},
     'C15': {'level': 'within the history bounds (calls interleaved with dump/load/clear/toggle), info() equals ground-truth counters derived from before/after snapshots of memory and archive', 'note': _N, 'technique': _T},
 }
 NOT_APPLICABLE = [
     {'property_id': p, 'reason': 'check not built yet in this session (planned in DESIGN.md §6); nothing is claimed for it so far'}
-    for p in ['C03', 'C04', 'C12', 'C13', 'C14', 'C16', 'C18', 'C19', 'C20']
+    for p in ['C03', 'C04', 'C13', 'C14', 'C16', 'C18', 'C19', 'C20']
 ]
